@@ -550,12 +550,8 @@ class WriterThread(threading.Thread):
             or event.is_paramaterized_replaceable
         ):
             saved_id = event.id_bytes
-            event.created_at - 1
             if event.is_paramaterized_replaceable:
-                try:
-                    d_tag = [tag[1] for tag in event.tags if tag[0] == "d"][0]
-                except IndexError:
-                    d_tag = None
+                d_tag = get_d_tag(event.tags)
             else:
                 d_tag = None
 
@@ -569,9 +565,10 @@ class WriterThread(threading.Thread):
                     if event_id == saved_id:
                         continue
                     candidate = decode_event(get_event_data(txn, event_id))
-                    if d_tag is not None:
-                        if not all(candidate.has_tag("d", d_tag)):
-                            continue
+                    if candidate.created_at >= event.created_at:
+                        continue
+                    if d_tag is not None and get_d_tag(candidate.tags) != d_tag:
+                        continue
                     self._delete_event(txn, candidate, log)
                     counter["count"] += 1
 
@@ -1222,6 +1219,19 @@ def get_event_data(txn, event_id: bytes):
         return unpackb(txn.get(b"\x00" + event_id), use_list=False)
     except TypeError:
         return None
+
+
+def get_d_tag(tags):
+    """
+    Return the value of the first "d" tag (nip-33).
+    A missing tag, [["d"]] and [["d", ""]] all mean the empty string
+    """
+    for tag in tags:
+        if tag and tag[0] == "d":
+            if len(tag) > 1 and isinstance(tag[1], str):
+                return tag[1]
+            break
+    return ""
 
 
 def tuples_to_lists(value):
